@@ -273,7 +273,14 @@ def run_property(pid: str, tier: str) -> int:
                                         f"refuted by {r['backend']}, model not concretisable",
                                         {"qualname": p["qualname"], "goal": r.get("goal"), "model": r.get("model")},
                                         "proof-exact-unreplayed"))
-            elif _changed_since_baseline(p) and r["name"] in _baseline_proved(p) and not b["failures"]:
+            elif _changed_since_baseline(p) and r["name"] in _baseline_proved(p) and not b["failures"] and r.get("exact") \
+                    and not rp.get("outcome"):
+                # (only for *exact* obligations - no loop invariant or callee contract abstracts the path - whose
+                #  counter-model could not be run at all.  A counter-model that was run on the real function and met the
+                #  contract there shows that the refutation comes from the encoding, not from the code: a behaviour-
+                #  preserving rewrite into a form the engine models less precisely must not raise an alarm.  In the seed
+                #  matrix no change was ever reported through this rule alone, and it once raised a false alarm on a
+                #  refactoring - harmless/C07-h3 - through an engine imprecision that has since been repaired.)
                 # an obligation that was discharged for the committed source of this function is refuted for the
                 # current source, and neither the counter-model nor the bounded evaluation gives a failing input
                 failures.append(Failure(p["function"], r["name"],
